@@ -273,13 +273,15 @@ def gen_cases(tier, seed, gen, effort):
         SV = shapes(vp)
         for name in ("pp_tmpl", "f_tmpl", "f_nest1", "f_nest3"):
             doc = SV[name]
-            for bases in ("none", "caller", "caller2", "derived_yaml", "derived_resolve"):
+            for bases in ("none", "caller", "caller2", "caller_empty", "derived_yaml", "derived_resolve"):
                 for who in ("caller", "env"):
                     caller = {"atv": who == "caller"}
                     env = {ENVV: "1"} if who == "env" else {}
                     mode = "dict"
                     if bases == "caller":
                         caller["vap"] = [BASE]
+                    elif bases == "caller_empty":
+                        caller["vap"] = []                   # an empty allow-list allows nothing (it is not "no restriction")
                     elif bases == "caller2":
                         caller["vap"] = [f"{T}/nowhere", f"{T}/base/dir/"]     # trailing slash, second entry matches
                     elif bases == "derived_yaml":
